@@ -214,8 +214,12 @@ def case(ctx):
     size = rng.choice([1.0, 10.0, 10.0, 100.0])
     center = (rng.randint(-20, 20), rng.randint(-20, 20))
     spec, info = G.random_shape(rng, kind, num, curved, center, size)
-    if kind in "SU" and curved and rng.random() < 0.5:
+    if kind in "SU" and curved and rng.random() < 0.6:
         spec, info = G.random_blob(rng, center, size, degree=rng.choice([2, 3]), cw=(kind == "U"), mixed=rng.random() < 0.5)
+        if rng.random() < 0.5:
+            # few, strongly curved segments (each turns by 120 degrees)
+            segs = G.blob_segments(rng, 3, rng.choice([2, 3]), center, 0.8 * size, size, False)
+            spec = G.ctrl_spec(segs, "float", kind == "U")
     case = Case(ctx, {"shape": spec}, "%s-%s" % (kind, "curved" if G.spec_is_curved(spec) else G.spec_num(spec)))
     base = G.build(spec)
     base_reg = S.snap_shape(base)
